@@ -1939,6 +1939,7 @@ func runC09(c *Ctx) {
 		}
 	}
 	e.vm = newC09vm(c, pk)
+	c09lastEnv = e // C09.i (c09x.go) runs on the same environment
 
 	e.ruleA()
 	e.ruleC()
